@@ -167,7 +167,14 @@ def _main():
         if not isinstance(message, dict) or REQUIRED_FIELDS - set(message.keys()):
             stdout.write("Not an Eliot message: {}\n\n".format(line.rstrip(b"\n")))
             continue
-        result = formatter(message, args.local_timezone) + "\n"
+        try:
+            result = formatter(message, args.local_timezone) + "\n"
+        except (TypeError, ValueError, OverflowError, OSError):
+            # The required fields are there but aren't what Eliot writes,
+            # e.g. a timestamp that is not a number or a task level that is
+            # not a list.
+            stdout.write("Not an Eliot message: {}\n\n".format(line.rstrip(b"\n")))
+            continue
         stdout.write(result)
 
 
